@@ -135,6 +135,7 @@ pub fn gen(prop: &str, seed: u64, stack: bool) -> RunDesc {
             7 => 3000,
             8 => 20_000,
             9 => 2049,
+            _ if crate::gen::deep() && rng.chance(0.15) => *rng.pick(&[100_000u64, 300_000, 1_000_000]),
             _ => 1 + rng.below(6000),
         }
     };
